@@ -22,7 +22,7 @@ T3 == IF Quick THEN {}
             : i \in 1..Len(Small), j \in 1..Len(Small), k \in 1..Len(Small), s \in {1, 2, 5}, u \in {1, 2, 5}}
 
 \* string bodies: sequences of units; "~" is the placeholder of a two-byte UTF-8 letter (mapped by the harness)
-IUnits == <<"a", "\\\"", "\\\\", "\\n", "\\t", "`", " ", "~", "//", "/*", "\\x41", "\\101", "\\u0041", "'", "$", "\\xff", "\\x80", "\\377", "\\200", "\\u00e9", "\\u00ff", "\\x00", "\\x7f", "\\r", "\\033">>
+IUnits == <<"a", "\\\"", "\\\\", "\\n", "\\t", "`", " ", "~", "//", "/*", "\\x41", "\\101", "\\u0041", "'", "$", "\\xff", "\\x80", "\\377", "\\200", "\\u00e9", "\\u00ff", "\\x00", "\\x7f", "\\r", "\\033", "\\a", "\\b", "\\f", "\\v">>
 RUnits == <<"a", "\"", "\\", "n", "\n", " ", "~", "//", "\\n">>
 RECURSIVE Bodies(_, _)
 Bodies(units, n) == IF n = 0 THEN {""} ELSE Bodies(units, n - 1) \cup {b \o units[i] : b \in Bodies(units, n - 1), i \in 1..Len(units)}
